@@ -60,6 +60,7 @@ class Result:
 
 
 _LIBFRAME = re.compile(r"#\d+ 0x[0-9a-f]+ in (\S+) (\S+)")
+_TSANFRAME = re.compile(r"#\d+ (\S+) (\S+?):\d+")
 
 
 def sanitizer_key(stderr):
@@ -115,7 +116,9 @@ def tsan_reports(text):
         stacks = re.split(r"\n\n", blk)
         fr = []
         for st in stacks:
-            for fm in _LIBFRAME.finditer(st):
+            if "created by" in st.split("\n", 1)[0] or st.lstrip().startswith("Thread T") or st.lstrip().startswith("Location is"):
+                continue
+            for fm in _TSANFRAME.finditer(st):
                 if "/Lib/" in fm.group(2):
                     fr.append(fm.group(1))
                     break
@@ -123,7 +126,7 @@ def tsan_reports(text):
                 break
         if not fr:
             # report without library frames (harness-only): still reported, keyed by first frame
-            fm = _LIBFRAME.search(blk)
+            fm = _TSANFRAME.search(blk)
             fr = ["nolib:" + (fm.group(1) if fm else "?")]
         out.append(("tsan:%s:%s" % (kind, "<".join(sorted(set(fr)))), blk))
     return out
